@@ -1,8 +1,10 @@
 #!/bin/bash
 # runs every check of one tier sequentially; prints one line per check
-tier=${1:-quick}
+# usage: tools/run_all.sh [tier] [IDs...]
+tier=${1:-quick}; shift
+ids="$@"; [ -z "$ids" ] && ids="C01 C02 C03 C04 C05 C06 C07 C08 C09 C10 C11 C12 C13 C14 C15 C16 C17 C18"
 cd "$(dirname "$0")/.."
-for id in C01 C02 C03 C04 C05 C06 C07 C08 C09 C10 C11 C12 C13 C14 C15 C16 C17 C18; do
+for id in $ids; do
   s=$(date +%s.%N)
   out=$(./check $id $tier 2>&1); rc=$?
   e=$(date +%s.%N)
